@@ -92,6 +92,69 @@ def m_is_variant(variant):
     return f
 
 
+def m_discriminant_value(ip, st, fr, t, args):
+    v = args[0]
+    if isinstance(v, Ref):
+        v = ip.read_loc(st, v.root, v.path)
+    w = ip.int_info(t["dest"]["ty"])
+    w = w[0] if w else 64
+    if isinstance(v, Enum):
+        # type of the referenced enum
+        at = ip.types[t["args"][0]["p"]["ty"]] if t["args"][0]["k"] in ("copy", "move") else None
+        tid = None
+        if at is not None and at["k"] in ("ref", "ptr"):
+            tid = at["to"]
+        if tid is not None and "variants" in ip.types[tid]:
+            return Int(bv.const(int(ip.types[tid]["variants"][v.variant]["discr"]), w))
+        return Int(bv.const(v.variant, w))
+    return Opaque("discriminant")
+
+
+def m_get_or_insert(ip, st, fr, t, args):
+    r = args[0]
+    if isinstance(r, Ref):
+        cur = ip.read_loc(st, r.root, r.path)
+        if isinstance(cur, Enum) and cur.variant == SOME:
+            return Ref(r.root, r.path + (0,))
+        if isinstance(cur, Enum) and cur.variant == NONE:
+            ip.write_loc(st, r.root, r.path, Enum(SOME, [args[1]]))
+            return Ref(r.root, r.path + (0,))
+        # unknown state: it is Some afterwards, holding either the old or the new value
+        ip.write_loc(st, r.root, r.path, Enum(SOME, [Opaque("old-or-new")]))
+        return Ref(r.root, r.path + (0,))
+    return Opaque("get_or_insert")
+
+
+def m_option_take(ip, st, fr, t, args):
+    r = args[0]
+    if isinstance(r, Ref):
+        cur = ip.read_loc(st, r.root, r.path)
+        ip.write_loc(st, r.root, r.path, Enum(NONE, []))
+        if isinstance(cur, Enum):
+            return cur
+        return [(None, Enum(NONE, [])), (None, Enum(SOME, [Opaque("taken")]))]
+    return Opaque("take")
+
+
+def m_rwlock_read(ip, st, fr, t, args):
+    # host-side configuration flags (statics); lock poisoning is not guest-controllable
+    r = args[0]
+    name = r.root[1] if isinstance(r, Ref) and r.root[0] == "static" else "?"
+    return Enum(OK, [Opaque("guard", name)])
+
+
+def m_guard_deref(ip, st, fr, t, args):
+    g = args[0]
+    if isinstance(g, Ref):
+        g = ip.read_loc(st, g.root, g.path)
+    if isinstance(g, Opaque) and g.tag == "guard":
+        root = ("setting", g.data)
+        if root not in st.mem:
+            st.mem[root] = Int(bv.data_bv("setting_" + str(g.data).split("::")[-1], 1))
+        return Ref(root, ())
+    return Opaque("deref")
+
+
 def m_checked_add_signed(ip, st, fr, t, args):
     a, b = args
     if not (isinstance(a, Int) and isinstance(b, Int)):
@@ -207,6 +270,11 @@ def standard_models():
         "<std::result::Result<T, F> as std::ops::FromResidual<std::result::Result<std::convert::Infallible, E>>>::from_residual": m_from_residual,
         "<std::option::Option<T> as std::ops::FromResidual<std::option::Option<std::convert::Infallible>>>::from_residual": m_from_residual,
         "std::option::Option::<T>::ok_or_else": m_ok_or_else,
+        "std::sync::RwLock::<T>::read": m_rwlock_read,
+        "<std::sync::RwLockReadGuard<'_, T> as std::ops::Deref>::deref": m_guard_deref,
+        "std::io::_print": m_unit,
+        "std::option::Option::<T>::get_or_insert": m_get_or_insert,
+        "std::option::Option::<T>::take": m_option_take,
         "std::result::Result::<T, E>::unwrap": m_unwrap,
         "std::option::Option::<T>::unwrap": m_unwrap,
         "std::result::Result::<T, E>::expect": m_unwrap,
@@ -223,6 +291,8 @@ def standard_models():
         "anyhow::Error::msg": m_anyhow,
         "anyhow::__private::must_use": m_identity0,
         "std::hint::must_use": m_identity0,
+        "std::intrinsics::discriminant_value": m_discriminant_value,
+        "core::intrinsics::discriminant_value": m_discriminant_value,
         "anyhow::error::<impl anyhow::Error>::msg": m_anyhow,
         "std::fmt::format": m_opaque("string"),
         "alloc::fmt::format": m_opaque("string"),
